@@ -10,7 +10,7 @@ Open Scope N_scope.
    Location is relative iff it starts with '/', the schemes are http:// (port 80) and https:// (port 443), and the next
    target is read from the Location header. *)
 Theorem C07_client_tables :
-  map status_code CLIENT_FOLLOWED_STATUS = [301; 307; 302] /\
+  map status_code CLIENT_FOLLOWED_STATUS = [301; 302; 307] /\
   (forall s, s < status_count -> is_redirect s = true <-> In (status_code s) [301; 302; 307]) /\
   CLIENT_RELATIVE_FIRST_BYTE = 47 /\
   CLIENT_HTTP_PREFIX = [104;116;116;112;58;47;47] /\ CLIENT_HTTPS_PREFIX = [104;116;116;112;115;58;47;47] /\
